@@ -334,6 +334,12 @@ func get(p *proc, id string) {
 	emit(event{"ev": "get", "via": p.id, "id": id, "err": es})
 }
 
+func wid(k int) []byte {
+	u := make([]byte, 16)
+	u[0], u[14], u[15] = 0x77, byte(k>>8), byte(k)
+	return u
+}
+
 func del(p *proc, id string) {
 	u, _ := uuid.FromString(id)
 	ctx, cancel := context.WithTimeout(context.Background(), 5*time.Second)
@@ -514,6 +520,96 @@ func main() {
 		emit(event{"ev": "snapshotted"})
 		b.start()
 		observe(ps, "restart")
+	case "durable":
+		// acknowledged writes on real server processes: every node is killed (-9) after the last
+		// acknowledgement and restarted on its directory; then one node only
+		ds := create(a, 2, 2)
+		observe(ps, "create")
+		if ds == "" {
+			break
+		}
+		write := func(kind string, via *proc, k int) {
+			u, _ := uuid.FromString(ds)
+			emit(event{"ev": "wsubmit", "kind": kind, "id": k})
+			var err error
+			for try := 0; try < 6; try++ {
+				ctx, cancel := context.WithTimeout(context.Background(), 3*time.Second)
+				cl := pb.NewDataManagerClient(via.conn)
+				switch kind {
+				case "insert":
+					_, err = cl.Insert(ctx, &pb.InsertRequest{DatasetId: u.Bytes(), Id: wid(k), Value: []float32{float32(k), 1, 0}, Metadata: map[string]string{"k": fmt.Sprint(k)}})
+				case "update":
+					_, err = cl.Update(ctx, &pb.UpdateRequest{DatasetId: u.Bytes(), Id: wid(k), Value: []float32{float32(k), 2, 0}})
+				case "remove":
+					_, err = cl.Remove(ctx, &pb.RemoveRequest{DatasetId: u.Bytes(), Id: wid(k)})
+				}
+				cancel()
+				if err == nil || strings.Contains(err.Error(), "exists") || strings.Contains(err.Error(), "not found") {
+					break
+				}
+				time.Sleep(400 * time.Millisecond)
+			}
+			okv, es := 1, ""
+			if err != nil {
+				okv, es = 0, err.Error()
+			}
+			emit(event{"ev": "wack", "kind": kind, "id": k, "ok": okv, "err": es})
+		}
+		find := func(tag string) {
+			u, _ := uuid.FromString(ds)
+			for _, p := range ps {
+				if !p.checkAlive() {
+					continue
+				}
+				ids := []int{}
+				es := ""
+				for try := 0; try < 15; try++ {
+					ids, es = []int{}, ""
+					ctx, cancel := context.WithTimeout(context.Background(), 3*time.Second)
+					st, err := pb.NewSearchClient(p.conn).Search(ctx, &pb.SearchRequest{DatasetId: u.Bytes(), Query: []float32{0, 0, 0}, K: 200})
+					for err == nil {
+						var it *pb.SearchResultItem
+						it, err = st.Recv()
+						if err == nil {
+							ids = append(ids, int(it.GetId()[14])<<8|int(it.GetId()[15]))
+						}
+					}
+					cancel()
+					if err == io.EOF {
+						break
+					}
+					es = err.Error()
+					time.Sleep(500 * time.Millisecond)
+				}
+				sort.Ints(ids)
+				emit(event{"ev": "found", "via": p.id, "after": tag, "ids": ids, "err": es})
+			}
+		}
+		for k := 1; k <= 24; k++ {
+			write("insert", ps[k%3], k)
+		}
+		write("remove", a, 3)
+		write("remove", b, 6)
+		write("update", c, 5)
+		write("insert", a, 6)
+		find("writes")
+		for _, p := range ps {
+			p.kill()
+		}
+		for _, p := range ps {
+			p.start()
+		}
+		observe(ps, "restart")
+		find("restart-all")
+		for k := 25; k <= 30; k++ {
+			write("insert", ps[k%3], k)
+		}
+		write("remove", c, 9)
+		b.kill()
+		find("minority-down")
+		b.start()
+		observe(ps, "restart")
+		find("restart-one")
 	case "lagging-replicas":
 		// a follower is down while a fourth node leaves, the replica sets of existing datasets change and
 		// the others compact their logs: the follower learns all of it from a snapshot
